@@ -91,7 +91,7 @@ PROPS = {
         "flavors": ["sync", "async"],
         "streams": [("core", "sync", 60), ("core", "async", 60)],
         "oracles": [],
-        "q_checks": [_lazy2("c05_cross_engine")],
+        "q_checks": [_lazy2("c05_cross_engine"), _lazy2("c05_pure")],
         "thorough_scale": 6,
     },
     "C06": {
@@ -159,8 +159,35 @@ def _left_final_same_event(prob, case, flavor):
     return prob.get("kind") == "done-without-final" and prob.get("final_was_entered_in_step") is True
 
 
+def _pure_forgets_history(prob, case, flavor):
+    return prob.get("kind") == "pure-api-disagrees" and prob.get("uses_history") is True
+
+
+def _pure_revives_done(prob, case, flavor):
+    return prob.get("kind") == "pure-api-disagrees" and prob.get("after_done") is True
+
+
+def _pure_skips_builtins(prob, case, flavor):
+    return prob.get("kind") == "pure-api-disagrees" and prob.get("has_builtin_followups") is True
+
+
 CLASSIFIERS = {
+    "pure-api-forgets-history": _pure_forgets_history,
+    "pure-api-revives-finished-machine": _pure_revives_done,
+    "pure-api-does-not-process-raise-or-choose": _pure_skips_builtins,
     "completed-then-left-final-in-same-event": _left_final_same_event,
     "root-declares-onDone": _root_has_ondone,
     "outer-done-shadowed-by-nearer-onDone": _shadowed_done,
 }
+
+
+def _replay_pure(case):
+    from . import multichecks
+    st, obs = __import__("xsmverif.core", fromlist=["x"])._impl_worker(("sync", case, 10))
+    s2, pr = multichecks._pure_worker(case)
+    if st != "ok" or s2 != "ok":
+        return [{"kind": "pure-api-crash", "detail": f"{st} {s2}"}]
+    return multichecks.pure_compare(case, obs, pr)
+
+
+REPLAY_RUNNERS = {"pure": _replay_pure}
